@@ -19,10 +19,37 @@ theorem lookup_ne_none_iff (t : Tree) (q : Path) : lookup t q ≠ none ↔ ∃ n
         · exact absurd hn.1.symm h
         · exact ⟨n, hn⟩
 
+theorem mem_dedup (a : String) : ∀ l : List String, a ∈ dedup l ↔ a ∈ l := by
+  intro l
+  induction l with
+  | nil => simp [dedup]
+  | cons b l ih =>
+    unfold dedup
+    split
+    · rename_i hb
+      rw [ih, List.mem_cons]
+      constructor
+      · exact Or.inr
+      · rintro (h | h)
+        · subst h; exact ih.mp hb
+        · exact h
+    · rw [List.mem_cons, List.mem_cons, ih]
+
+theorem nodup_dedup : ∀ l : List String, (dedup l).Nodup := by
+  intro l
+  induction l with
+  | nil => simp [dedup]
+  | cons b l ih =>
+    unfold dedup
+    split
+    · exact ih
+    · rename_i hb
+      exact List.nodup_cons.mpr ⟨hb, ih⟩
+
 theorem mem_children (t : Tree) (p : Path) (name : String) :
     name ∈ children t p ↔ ∃ n, (p ++ [name], n) ∈ t := by
   unfold children
-  rw [List.mem_eraseDups, List.mem_filterMap]
+  rw [mem_dedup, List.mem_filterMap]
   constructor
   · rintro ⟨⟨q, n⟩, hmem, hq⟩
     simp only at hq
